@@ -27,6 +27,13 @@ import (
 // This allows using astutil.Apply to rewrite an AST without modifying
 // the original AST.
 func copyAST(original ast.Node) ast.Node {
+	node, _ := copyASTWithOriginals(original)
+	return node
+}
+
+// copyASTWithOriginals is like copyAST but also returns a mapping from
+// every copied node to the node it was copied from.
+func copyASTWithOriginals(original ast.Node) (ast.Node, map[ast.Node]ast.Node) {
 	// This function is necessarily long. No utility function exists to do this
 	// clone, as most any attempt would need to have customization options, which
 	// would need to be as expressive as Apply. A possibility to shorten the code
@@ -402,7 +409,11 @@ func copyAST(original ast.Node) ast.Node {
 		}
 		return true
 	})
-	return m[original]
+	originals := make(map[ast.Node]ast.Node, len(m))
+	for orig, cp := range m {
+		originals[cp] = orig
+	}
+	return m[original], originals
 }
 
 func commentGroupFromMap(m map[ast.Node]ast.Node, key *ast.CommentGroup) *ast.CommentGroup {
